@@ -116,6 +116,12 @@ func (db *SingleBucketBackend) ListBucket(bucket string, prefix *gofakes3.Prefix
 }
 
 func (db *SingleBucketBackend) getBucketWithFilePrefixLocked(bucket string, prefixPath, prefixPart string) (*gofakes3.ObjectList, error) {
+	if prefixPath != "" && !validObjectName(prefixPath) {
+		// No stored key can start with such a prefix, and resolving it as a
+		// directory would list some other directory instead:
+		return gofakes3.NewObjectList(), nil
+	}
+
 	dirEntries, err := afero.ReadDir(db.fs, filepath.FromSlash(prefixPath))
 	if os.IsNotExist(err) && prefixPath != "" {
 		// No directory for the prefix means no key matches it:
